@@ -235,12 +235,47 @@ class Obj:
         return f"<{getattr(self.cls, 'name', self.cls)} {self.fields}>"
 
 
+_LIVE_GENERATORS = set()
+
+
+def close_generators():
+    """wake and end every parked generator thread (a generator the interpreted
+    code abandoned half-way would otherwise keep its thread for the life of the
+    process -- harmless in one check run, fatal in a worker that runs
+    thousands)"""
+    for st in list(_LIVE_GENERATORS):
+        st.close()
+    _LIVE_GENERATORS.clear()
+
+
 class AbsGen:
     """a generator function being interpreted: its body runs in a thread of its
     own that is parked at every `yield` until the consumer asks for the next
     value, so that laziness (what has and has not been evaluated when the
-    consumer stops) is the program's, not the interpreter's"""
+    consumer stops) is the program's, not the interpreter's.  This is the
+    handle the interpreted program holds; the thread only knows the state
+    object, so a handle that is dropped ends its thread."""
 
+    def __init__(self, interp, fn, env):
+        self._st = _GenState(interp, fn, env)
+
+    def __iter__(self):
+        return self
+
+    def __next__(self):
+        return self._st.__next__()
+
+    def close(self):
+        self._st.close()
+
+    def __del__(self):
+        try:
+            self._st.close()
+        except Exception:      # noqa: BLE001 -- interpreter shutdown
+            pass
+
+
+class _GenState:
     def __init__(self, interp, fn, env):
         import queue
         import threading
@@ -283,11 +318,13 @@ class AbsGen:
         if self.thread is None:
             self.thread = self._threading.Thread(target=self._run, daemon=True)
             self.thread.start()
+            _LIVE_GENERATORS.add(self)
         self.go.set()
         kind, v = self.out.get()
         if kind == "value":
             return v
         self.done = True
+        _LIVE_GENERATORS.discard(self)
         if kind == "raise":
             if isinstance(v, _GenClosed):
                 raise StopIteration
@@ -295,6 +332,7 @@ class AbsGen:
         raise StopIteration
 
     def close(self):
+        _LIVE_GENERATORS.discard(self)
         if self.thread is not None and not self.done:
             self.done = True
             self.go.set()
